@@ -49,7 +49,9 @@ CHECKS = {
         dict(prop="C09", harness="api_pbt", quick=dict(count=2400, workers=8), thorough=dict(count=100000, workers=16),
              essential=_V2_SCHEMAS + ["move:first-of>=3", "move:middle-of>=3", "move:last-of>=3", "move-into-empty-parent",
                                       "remove-entity:middle-of>=3", "insert-after:middle-of>=3", "insert-after:first-of>=3",
-                                      "remove-sibling:middle-of>=3", "remove-sibling:first-of>=3"])]),
+                                      "remove-sibling:middle-of>=3", "remove-sibling:first-of>=3"]),
+        dict(prop="C09.table", harness="table_pbt", quick=dict(count=3000, workers=4), thorough=dict(count=120000, workers=16),
+             essential=_V2_SCHEMAS + ["entity:add_back", "entity:remove-non-last", "entity:clear", "playlist:remove"])]),
     "C10": dict(level="exploration", parts=[
         dict(prop="REG", harness="api_pbt", quick=dict(count=0, workers=1), thorough=dict(count=0, workers=1)),  # regression scenarios
         dict(prop="C10", harness="api_pbt", quick=dict(count=2000, workers=8), thorough=dict(count=60000, workers=16),
@@ -199,8 +201,9 @@ RULES = {
            "operations (positional and plain creates, set_parent, set_name, remove_crate, membership operations). Order model: "
            "create_*_after(x) inserts immediately after x; plain create and move append (a move within the same parent may stay or go last); "
            "remove deletes; entries are listed in insertion order minus removed. After every step root_crates(), children(c) and tracks(c) "
-           "must equal the model lists exactly (order included) and the forest invariants of C07 hold. Non-trivial = an insert/move/remove at a "
-           "non-last position.",
+           "must equal the model lists exactly (order included) and the forest invariants of C07 hold. table part: playlist_table add / update / "
+           "remove and playlist_entity_table add_back / remove (first, middle, last) / clear against the same ordered model (track_ids = insertion "
+           "order minus removed). Non-trivial = an insert/move/remove at a non-last position.",
     "C10": "Case = schema + on-disk library in a scratch directory under /dev/shm + history of crate, membership and track operations (full "
            "snapshots, setters, updates) + up to three close points. At each close point Obs (canonical dump through the public API: every "
            "track's snapshot and getters, every crate's name/parent/children/descendants/tracks, roots, by-name lookups, uuid, version) is "
